@@ -4,6 +4,7 @@
 -/
 import MotoModel.Proofs.DiskGeometry
 import MotoModel.Proofs.DiskSaveLoad
+import MotoModel.Proofs.DiskLoadSaveSd
 namespace Moto.C11
 open Moto Moto.Disk
 
